@@ -198,7 +198,7 @@ class Model {
       }
       case O_RELEASE: return slot_eid[o.at(0)] >= 0;
       case O_CALL: return obj[o.at(0)].alive;
-      case O_MOVE_MOCK: return obj[o.at(0)].alive && husks < 4;
+      case O_MOVE_MOCK: return o.at(0) != OBJ_FIXED && obj[o.at(0)].alive && husks < 4;   // slot OBJ_FIXED: not movable
       case O_DESTROY_MOCK: return obj[o.at(0)].alive;
       case O_RECREATE_MOCK: return !obj[o.at(0)].alive;
       case O_DESTROY_SEQ: case O_MOVE_SEQ: return seq[o.at(0)].alive;
